@@ -60,6 +60,7 @@ def dump (d : D) : String :=
   "P=" ++ iterStr st .prop ++ " V=" ++ iterStr st .val ++ " G=" ++ ",".intercalate g ++ " A=" ++ ",".intercalate a
     ++ " T=" ++ totalsStr st st.height ++ " T=" ++ totalsStr st (st.height + heightAfterStake)
     ++ " B=" ++ ",".intercalate b ++ " E=" ++ ",".intercalate e ++ " R=" ++ ",".intercalate r
+    ++ " K=" ++ ",".intercalate (d.ids.map (fun id => match st.pkOf id with | none => "nil" | some k => toHex k))
 
 def badKind? : String → Option BadKind
   | "apply-json" => some .applyJson
@@ -70,14 +71,15 @@ def badKind? : String → Option BadKind
   | _ => none
 
 def doTx (d : D) (t : Tx) : D × String :=
-  let r := runTx realCfg d.st t
+  let r := pkAfter t (runTx realCfg d.st t)
   ({ d with st := r.2 }, r.1)
 
 def stepOpt (d : D) (ws : List String) : Option (D × String) :=
   match ws with
   | ["reset", h] => do
     let h ← h.toNat?
-    pure ({ D.init with st := State.empty h, live := true, heights := [h] }, "ok")
+    -- the public-key cache is a process-wide LevelDB: it survives the reset of the account state
+    pure ({ D.init with st := { State.empty h with pk := d.st.pk }, live := true, heights := [h] }, "ok")
   | _ =>
     if !d.live then none else
     match ws with
